@@ -38,6 +38,7 @@ type Obligation struct {
 	Vars   map[string]string // source-level name -> SMT term (for counterexample extraction)
 	Values map[string]string
 	Candidate bool // Values come from a weakened query (quantified assumptions dropped)
+	flag   string // name of the Bool definition guarding "assume this goal afterwards" ("" = unconditional)
 }
 
 // FnCtx is the per-function SMT context.
